@@ -54,3 +54,26 @@ def run(hname, cfg, tier, seed):
     if hname == "flat":
         return vmdk.flat_task("C02", cfg, tier, seed)
     return vmdk.read_task("C02", cfg, tier, seed)
+
+
+def precheck(tier, seed):
+    import io
+
+    from dissect.hypervisor.disk.vmdk import VMDK
+    from harness import fixtures
+    from oracles import vmdk as spec
+
+    errors, traces = [], 0
+    data = fixtures.load_gz("sesparse.vmdk.gz")
+    obj = VMDK(io.BytesIO(data))
+    mem = fixtures.mem_of(data)
+    gs = int.from_bytes(data[24:32], "little")
+    gts = int.from_bytes(data[32:40], "little")
+
+    def real(off, ln):
+        obj.seek(off)
+        return obj.read(ln)
+
+    traces += fixtures.compare("sesparse.vmdk.gz", real, lambda g: spec.sesparse_guest_byte(g, mem, gs, gts), obj.size,
+                               (gs * 512,), seed, errors)
+    return dict(errors=errors, traces=traces, summary="oracle == real reader on sesparse.vmdk (tests/data)")
